@@ -135,6 +135,25 @@ def _(h):
     h.eq('sum', S.A, inertia_ref(m1, r1, I1) + inertia_ref(m2, r2, I2))
 
 
+@claim('inertia-add-reuse')
+def _(h):
+    """an inertia that was an operand of + is unchanged and can be joined with a third body"""
+    m1, r1 = h.real('m1', 1e-6, 1e6), h.vec('r1', 3)
+    m2, r2 = h.real('m2', 1e-6, 1e6), h.vec('r2', 3)
+    m3, r3 = h.real('m3', 1e-6, 1e6), h.vec('r3', 3)
+    Z = np.zeros((3, 3), dtype=int)
+    J1, J2, J3 = SpatialInertia(m1, r1), SpatialInertia(m2, r2), SpatialInertia(m3, r3)
+    A1, A2, A3 = inertia_ref(m1, r1, Z), inertia_ref(m2, r2, Z), inertia_ref(m3, r3, Z)
+    S12 = J1 + J2
+    h.eq('left operand unchanged', J1.A, A1)
+    h.eq('right operand unchanged', J2.A, A2)
+    h.eq('J1 + J3 after J1 + J2', (J1 + J3).A, A1 + A3)
+    h.eq('(J1 + J2) + J3', (S12 + J3).A, A1 + A2 + A3)
+    h.eq('J2 + (J2 + J3)', (J2 + (J2 + J3)).A, 2 * A2 + A3)
+    a = h.vec('a', 6)
+    h.eq('J1 * a after the sums', (J1 * SpatialAcceleration(a)).A, matmul(A1, a.reshape(6, 1)).ravel())
+
+
 @claim('inertia-times')
 def _(h):
     m, r, I = h.real('m', 1e-6, 1e6), h.vec('r', 3), sym_inertia(h, 'I')
